@@ -161,11 +161,18 @@ func runSigCase(ta *TestApp, seed uint64, idx int, rep *Report, profile string) 
 	creator := addrs[0]
 	anyValid := false
 	scripted := rng.Chance(65) // publish, sign, verify on the same (address, reference) first; mutations follow
+	probeAddr, probeRef := "", ""
 	for s := 0; s < nOps; s++ {
 		choice := rng.Pick(30, 30, 40)
 		forced := scripted && s < 3
 		if forced {
 			choice = s
+		}
+		// after a store that ran on a dropped branch the next operation is often the verification of that very record: whatever the
+		// dropped message left outside the store (a cache of decoded records) would answer it
+		probe := !forced && probeAddr != "" && rng.Chance(70)
+		if probe {
+			choice = 2
 		}
 		switch choice {
 		case 0: // publish
@@ -266,6 +273,9 @@ func runSigCase(ta *TestApp, seed uint64, idx int, rep *Report, profile string) 
 				_, err := ms.StoreSignature(sdk.WrapSDKContext(c), &sigtypes.MsgStoreSignature{Creator: creator, StorageKey: skey, SignatureJSON: jsonStr})
 				if err == nil && discard {
 					rep.Count("store.discarded_after_success")
+					if skey == hashHex(addr+":"+ref) {
+						probeAddr, probeRef = addr, ref
+					}
 				}
 				if err == nil && !discard {
 					write()
@@ -289,6 +299,11 @@ func runSigCase(ta *TestApp, seed uint64, idx int, rep *Report, profile string) 
 			if forced {
 				addr, ref, vm = addrs[0], refs[0], 11
 			}
+			if probe {
+				addr, ref, vm = probeAddr, probeRef, 11
+				rep.Count("verify.right_after_a_dropped_store")
+			}
+			probeAddr, probeRef = "", ""
 			switch vm {
 			case 0:
 				ref = ref[:63]
